@@ -28,9 +28,28 @@
 //! recorded inner outcome on the never-paused twin, `fbase` the twin outcome of the same loan around a
 //! message that fails (`c` lines).
 //!
+//! MIGRATIONS.  Every pool and vault is instantiated by its factory with the factory as wasm admin, and every
+//! contract code is registered with its real `migrate` entry point.  A case's history also contains
+//!
+//! ```text
+//! migrate <f|d|s> <x.y.z[L]> cur=<crate version> base=<ok|err|panic>
+//! ```
+//!
+//! `f`: the factory's owner sends `MigratePair` / `MigrateTrio` / `MigrateVaults{vault_addr}` (the factory sends
+//! `WasmMsg::Migrate`, same code id); `d`: `App::migrate_contract` with the wasm admin (the factory's address) as
+//! sender; `s`: a stranger sends the factory's message (refused by the factory).  Before the migration the
+//! stored cw2 version of the contract under test is set to `x.y.z` (the handlers refuse unless the stored
+//! version is LOWER than the crate's): the `contract_info` item is rewritten in the chain's raw storage
+//! through `App::init_modules` (key = length-prefixed `wasm` / `contract_data/<addr>` namespaces + item key,
+//! verified by reading it back with `App::dump_wasm_raw`) — no message of any contract can lower it.  With
+//! the suffix `L` the items that release laid out differently are put back into that release's layout first
+//! (as declared by the `…V110` / `…V113` / `…V120` structs of the contracts' `migrations.rs`), so that the
+//! version-specific storage migration — the code that rebuilds `Config`, switches included — really runs.
+//! `cur` is the crate version as `instantiate` stored it, `base` the outcome of the same migration on the twin.
+//!
 //! Every `path` / `inloan` line is executed on a *fresh* world built by the same deterministic recipe, with the
-//! case's `set` history replayed on it; `base` is the outcome of the same path on the twin world whose
-//! switches were never touched.  Before the path's main transaction the engine snapshots all bank
+//! case's history of config writes AND migrations replayed on it; `base` is the outcome of the same path on the twin world whose
+//! switches were never touched (it replays the case's migrations, nothing else).  Before the path's main transaction the engine snapshots all bank
 //! balances and the raw storage of every contract in the world (cw20 tokens included).
 use crate::common::*;
 use cosmwasm_std::{
@@ -219,15 +238,90 @@ impl InLoan {
 pub enum Job {
     Path(String),
     InLoan(InLoan),
+    Migrate(MigSpec),
 }
 impl Job {
     fn key(&self) -> String {
         match self {
             Job::Path(p) => p.clone(),
             Job::InLoan(j) => j.token(),
+            Job::Migrate(m) => m.token(),
         }
     }
 }
+/// who sends a migration
+#[derive(Clone, Copy, PartialEq, Eq, Debug, PartialOrd, Ord)]
+pub enum Via {
+    /// the factory's owner through the factory's `MigratePair` / `MigrateTrio` / `MigrateVaults`
+    Factory,
+    /// the wasm admin (the factory's address) with a plain `MsgMigrateContract`
+    Direct,
+    /// somebody else through the factory's message
+    Stranger,
+}
+
+/// one migration of the contract under test: the stored cw2 version is set to `from` first (and, `legacy`,
+/// the storage items are put into the layout of that release)
+#[derive(Clone, PartialEq, Eq, Debug, PartialOrd, Ord)]
+pub struct MigSpec {
+    pub via: Via,
+    pub from: (u64, u64, u64),
+    pub legacy: bool,
+}
+impl MigSpec {
+    fn parse(via: &str, from: &str) -> Option<MigSpec> {
+        let via = match via {
+            "f" => Via::Factory,
+            "d" => Via::Direct,
+            "s" => Via::Stranger,
+            _ => return None,
+        };
+        let (v, legacy) = match from.strip_suffix('L') {
+            Some(v) => (v, true),
+            None => (from, false),
+        };
+        Some(MigSpec { via, from: parse_ver(v)?, legacy })
+    }
+    fn token(&self) -> String {
+        format!(
+            "migrate {} {}.{}.{}{}",
+            match self.via {
+                Via::Factory => "f",
+                Via::Direct => "d",
+                Via::Stranger => "s",
+            },
+            self.from.0,
+            self.from.1,
+            self.from.2,
+            if self.legacy { "L" } else { "" }
+        )
+    }
+    fn from_str(&self) -> String {
+        format!("{}.{}.{}", self.from.0, self.from.1, self.from.2)
+    }
+}
+fn parse_ver(v: &str) -> Option<(u64, u64, u64)> {
+    let p: Vec<&str> = v.split('.').collect();
+    if p.len() != 3 || p.iter().any(|x| x.is_empty() || !x.chars().all(|c| c.is_ascii_digit())) {
+        return None;
+    }
+    Some((p[0].parse().ok()?, p[1].parse().ok()?, p[2].parse().ok()?))
+}
+
+/// the releases whose storage layout the engine can put back (`…L`), per contract family: exactly the
+/// layouts the contracts' `migrations.rs` declare as the input of a migration that rebuilds an item
+fn legacy_known(k: Kind, from: (u64, u64, u64)) -> bool {
+    if k.is_pair() {
+        // ConfigV110 (no burn fee) -> migrate_to_v120;  PairInfoRawV120 (LP as address, no pair type) -> migrate_to_v130
+        from == (1, 1, 0) || from == (1, 2, 0)
+    } else if k.is_vault() {
+        // ConfigV113 (`liquidity_token`, no burn fee) -> migrate_to_v120
+        from <= (1, 1, 3)
+    } else {
+        false
+    }
+}
+
 fn paths_of(k: Kind) -> &'static [(&'static str, Option<usize>)] {
     if k.is_pair() {
         PAIR_PATHS
@@ -321,7 +415,8 @@ impl World {
                 terraswap_pair::contract::instantiate,
                 terraswap_pair::contract::query,
             )
-            .with_reply(terraswap_pair::contract::reply),
+            .with_reply(terraswap_pair::contract::reply)
+            .with_migrate(terraswap_pair::contract::migrate),
         ));
         let trio_id = app.store_code(Box::new(
             ContractWrapper::new(
@@ -329,7 +424,8 @@ impl World {
                 stableswap_3pool::contract::instantiate,
                 stableswap_3pool::contract::query,
             )
-            .with_reply(stableswap_3pool::contract::reply),
+            .with_reply(stableswap_3pool::contract::reply)
+            .with_migrate(stableswap_3pool::contract::migrate),
         ));
         let fac_id = app.store_code(Box::new(
             ContractWrapper::new(
@@ -546,7 +642,8 @@ impl World {
     fn build_vault(mut app: App, kind: Kind, funded: bool, admin: Addr, alice: Addr, token: Addr, token_id: u64) -> World {
         let vault_id = app.store_code(Box::new(
             ContractWrapper::new(::vault::contract::execute, ::vault::contract::instantiate, ::vault::contract::query)
-                .with_reply(::vault::reply::reply),
+                .with_reply(::vault::reply::reply)
+                .with_migrate(::vault::contract::migrate),
         ));
         let vfac_id = app.store_code(Box::new(
             ContractWrapper::new(
@@ -670,6 +767,7 @@ impl World {
             CfgWrite::Full(f) | CfgWrite::FullWith(f) => (Some(*f), [Some(f[0]), Some(f[1]), Some(f[2])]),
             CfgWrite::Partial(o) => (Some([o[0].unwrap_or(cur[0]), o[1].unwrap_or(cur[1]), o[2].unwrap_or(cur[2])]), *o),
             CfgWrite::Touch => (None, [None, None, None]),
+            CfgWrite::Migrate(_) => return Err("not a config write".into()),
         };
         let with = matches!(wr, CfgWrite::FullWith(_));
         let col = if matches!(wr, CfgWrite::Touch) || with { Some("collector".to_string()) } else { None };
@@ -772,6 +870,161 @@ impl World {
             ),
         };
         r.map(|_| ()).map_err(|e| format!("{e:#}"))
+    }
+
+    // ------------------------------------------------------------------ migration
+    /// one item of the raw storage of a contract
+    pub fn raw_get(&self, addr: &Addr, key: &[u8]) -> Option<Vec<u8>> {
+        self.app.dump_wasm_raw(addr).into_iter().find(|(k, _)| k.as_slice() == key).map(|(_, v)| v)
+    }
+
+    /// Writes one item of a contract's raw storage, from outside any contract (nothing a contract offers can
+    /// lower its cw2 version or bring back an older layout).  cw-multi-test keeps a contract's storage under
+    /// the length-prefixed namespaces `wasm` / `contract_data/<addr>`; the write is verified by reading the
+    /// item back through the public `dump_wasm_raw`.
+    pub fn raw_set(&mut self, addr: &Addr, key: &[u8], value: &[u8]) -> Result<(), String> {
+        let mut full = vec![];
+        for ns in [b"wasm".as_slice(), format!("contract_data/{addr}").as_bytes()] {
+            full.extend_from_slice(&(ns.len() as u16).to_be_bytes());
+            full.extend_from_slice(ns);
+        }
+        full.extend_from_slice(key);
+        self.app.init_modules(|_, _, storage| storage.set(&full, value));
+        if self.raw_get(addr, key).as_deref() == Some(value) {
+            Ok(())
+        } else {
+            Err(format!("raw write of {:?} on {addr} did not land", String::from_utf8_lossy(key)))
+        }
+    }
+
+    /// (contract name, version) of the cw2 item of the contract under test
+    pub fn stored_version(&self) -> Option<(String, String)> {
+        let raw = self.raw_get(&self.target, b"contract_info")?;
+        let v: serde_json::Value = serde_json::from_slice(&raw).ok()?;
+        Some((v.get("contract")?.as_str()?.to_string(), v.get("version")?.as_str()?.to_string()))
+    }
+
+    /// "the contract was deployed by release `from`": the stored cw2 version becomes `from`; `legacy`: the items
+    /// that release laid out differently are rewritten in its layout, every value carried over
+    pub fn arrange_release(&mut self, m: &MigSpec) -> Result<(), String> {
+        let target = self.target.clone();
+        let (name, _) = self.stored_version().ok_or("no cw2 item")?;
+        let info = serde_json::json!({ "contract": name, "version": m.from_str() });
+        self.raw_set(&target, b"contract_info", &serde_json::to_vec(&info).unwrap())?;
+        if !m.legacy {
+            return Ok(());
+        }
+        if !legacy_known(self.kind, m.from) {
+            return Err("no older layout known for this release".into());
+        }
+        let load = |w: &World, key: &[u8]| -> Result<serde_json::Value, String> {
+            serde_json::from_slice(&w.raw_get(&target, key).ok_or("item missing")?).map_err(|e| e.to_string())
+        };
+        if self.kind.is_pair() && m.from == (1, 1, 0) {
+            // ConfigV110 { owner, fee_collector_addr, pool_fees: { protocol_fee, swap_fee }, feature_toggle }
+            let mut c = load(self, b"config")?;
+            c.get_mut("pool_fees").and_then(|f| f.as_object_mut()).ok_or("config.pool_fees")?.remove("burn_fee");
+            self.raw_set(&target, b"config", &serde_json::to_vec(&c).unwrap())?;
+        } else if self.kind.is_pair() {
+            // PairInfoRawV120 { asset_infos, contract_addr, liquidity_token: CanonicalAddr, asset_decimals }
+            let mut p = load(self, b"pair_info")?;
+            let lp = p
+                .get("liquidity_token")
+                .and_then(|l| l.get("token"))
+                .and_then(|t| t.get("contract_addr"))
+                .cloned()
+                .ok_or("pair_info.liquidity_token.token.contract_addr")?;
+            let o = p.as_object_mut().ok_or("pair_info")?;
+            o.insert("liquidity_token".into(), lp);
+            o.remove("pair_type");
+            self.raw_set(&target, b"pair_info", &serde_json::to_vec(&p).unwrap())?;
+        } else {
+            // ConfigV113 { owner, asset_info, flash_loan_enabled, deposit_enabled, withdraw_enabled,
+            //              liquidity_token: Addr, fee_collector_addr, fees: { protocol_fee, flash_loan_fee } }
+            let mut c = load(self, b"config")?;
+            let lp = c
+                .get("lp_asset")
+                .and_then(|l| l.get("token"))
+                .and_then(|t| t.get("contract_addr"))
+                .cloned()
+                .ok_or("config.lp_asset.token.contract_addr")?;
+            let o = c.as_object_mut().ok_or("config")?;
+            o.remove("lp_asset");
+            o.insert("liquidity_token".into(), lp);
+            o.get_mut("fees").and_then(|f| f.as_object_mut()).ok_or("config.fees")?.remove("burn_fee");
+            self.raw_set(&target, b"config", &serde_json::to_vec(&c).unwrap())?;
+        }
+        Ok(())
+    }
+
+    /// the single judged transaction of a `migrate` line: the REAL `migrate` entry point, same code id
+    pub fn run_migrate(&mut self, m: &MigSpec) -> Result<(), String> {
+        let target = self.target.clone();
+        let factory = self.factory.clone();
+        let code_id = self.app.contract_data(&target).map_err(|e| e.to_string())?.code_id as u64;
+        let sender = if m.via == Via::Stranger { self.alice.clone() } else { self.admin.clone() };
+        match (m.via, self.kind) {
+            (Via::Direct, Kind::Cp | Kind::Stable) => ex(self.app.migrate_contract(factory, target, &pair::MigrateMsg {}, code_id)),
+            (Via::Direct, Kind::Trio) => ex(self.app.migrate_contract(factory, target, &trio::MigrateMsg {}, code_id)),
+            (Via::Direct, _) => ex(self.app.migrate_contract(factory, target, &vault::MigrateMsg {}, code_id)),
+            (_, Kind::Cp | Kind::Stable) => ex(self.app.execute_contract(
+                sender,
+                factory,
+                &pf::ExecuteMsg::MigratePair { contract: target.to_string(), code_id: Some(code_id) },
+                &[],
+            )),
+            (_, Kind::Trio) => ex(self.app.execute_contract(
+                sender,
+                factory,
+                &pf::ExecuteMsg::MigrateTrio { contract: target.to_string(), code_id: Some(code_id) },
+                &[],
+            )),
+            (_, _) => ex(self.app.execute_contract(
+                sender,
+                factory,
+                &vf::ExecuteMsg::MigrateVaults { vault_addr: Some(target.to_string()), vault_code_id: code_id },
+                &[],
+            )),
+        }
+    }
+
+    /// the switches as `Config{}` reports them, `None` when the query does not answer
+    pub fn flags_checked(&self) -> Option<[bool; 3]> {
+        match guarded(|| -> Result<[bool; 3], String> {
+            Ok(match self.kind {
+                Kind::Cp | Kind::Stable => {
+                    let c: pair::Config =
+                        self.app.wrap().query_wasm_smart(&self.target, &pair::QueryMsg::Config {}).map_err(|e| e.to_string())?;
+                    [c.feature_toggle.deposits_enabled, c.feature_toggle.withdrawals_enabled, c.feature_toggle.swaps_enabled]
+                }
+                Kind::Trio => {
+                    let c: trio::Config =
+                        self.app.wrap().query_wasm_smart(&self.target, &trio::QueryMsg::Config {}).map_err(|e| e.to_string())?;
+                    [c.feature_toggle.deposits_enabled, c.feature_toggle.withdrawals_enabled, c.feature_toggle.swaps_enabled]
+                }
+                Kind::VNative | Kind::VCw20 => {
+                    let c: vault::Config =
+                        self.app.wrap().query_wasm_smart(&self.target, &vault::QueryMsg::Config {}).map_err(|e| e.to_string())?;
+                    [c.deposit_enabled, c.withdraw_enabled, c.flash_loan_enabled]
+                }
+            })
+        }) {
+            Outcome::Ok(f) => Some(f),
+            _ => None,
+        }
+    }
+
+    /// one step of a case's history: a config write, or a migration (refused or not, it is part of the
+    /// history; only a failing ARRANGEMENT of the older release is an error of the machinery)
+    pub fn apply(&mut self, wr: &CfgWrite, cur: [bool; 3]) -> Result<(), String> {
+        match wr {
+            CfgWrite::Migrate(m) => {
+                self.arrange_release(m)?;
+                let _ = guarded(|| self.run_migrate(m));
+                Ok(())
+            }
+            _ => self.write_cfg(wr, cur),
+        }
     }
 
     // ------------------------------------------------------------------ snapshot
@@ -1308,8 +1561,9 @@ impl World {
     }
 
     /// preparatory transactions of a job; not part of the judged transaction
-    pub fn prepare_job(&mut self, job: &Job, amt: u128) {
+    pub fn prepare_job(&mut self, job: &Job, amt: u128) -> Result<(), String> {
         match job {
+            Job::Migrate(m) => return self.arrange_release(m),
             Job::Path(p) => self.prepare(p, amt),
             Job::InLoan(_) => {
                 // a vault without liquidity cannot lend: give it a plain transfer (no shares exist)
@@ -1320,6 +1574,7 @@ impl World {
                 }
             }
         }
+        Ok(())
     }
 }
 
@@ -1373,6 +1628,8 @@ pub enum CfgWrite {
     FullWith([bool; 3]),
     Partial([Option<bool>; 3]),
     Touch,
+    /// not a config write: the contract was migrated at this point of the history
+    Migrate(MigSpec),
 }
 
 pub fn run_on_fresh(kind: Kind, funded: bool, sets: &[[bool; 3]], writes: &[CfgWrite], job: &Job, amt: u128) -> Outcome<PathRun> {
@@ -1380,10 +1637,10 @@ pub fn run_on_fresh(kind: Kind, funded: bool, sets: &[[bool; 3]], writes: &[CfgW
         let mut w = World::build(kind, funded);
         let mut cur = [true, true, true];
         for (f, wr) in sets.iter().zip(writes.iter()) {
-            w.write_cfg(wr, cur)?;
+            w.apply(wr, cur)?;
             cur = *f;
         }
-        w.prepare_job(job, amt);
+        w.prepare_job(job, amt)?;
         let before = w.snapshot();
         let mut inner = None;
         let mut inner_err = String::new();
@@ -1401,12 +1658,14 @@ pub fn run_on_fresh(kind: Kind, funded: bool, sets: &[[bool; 3]], writes: &[CfgW
                 Outcome::Err(e) => ("err", e),
                 Outcome::Panic => ("panic", String::new()),
             },
+            Job::Migrate(m) => match guarded(|| w.run_migrate(m)) {
+                Outcome::Ok(()) => ("ok", String::new()),
+                Outcome::Err(e) => ("err", e),
+                Outcome::Panic => ("panic", String::new()),
+            },
         };
         let after = w.snapshot();
-        let flags_after = match guarded(|| -> Result<[bool; 3], String> { Ok(w.flags()) }) {
-            Outcome::Ok(f) => f,
-            _ => cur,
-        };
+        let flags_after = w.flags_checked().unwrap_or(cur);
         Ok(PathRun {
             outcome,
             err,
@@ -1432,7 +1691,9 @@ pub struct Toggles {
     writes: Vec<CfgWrite>,
     world: Option<World>,
     plan: Vec<String>,
-    twin: BTreeMap<(Kind, bool, u128, String), Twin>,
+    twin: BTreeMap<(Kind, bool, u128, String, String), Twin>,
+    /// the crate version of the contract under test, as `instantiate` stores it in the cw2 item
+    crate_ver: Option<(u64, u64, u64)>,
 }
 
 /// what a job did on the never-paused twin world
@@ -1457,15 +1718,66 @@ impl Toggles {
             world: None,
             plan: vec![],
             twin: BTreeMap::new(),
+            crate_ver: None,
         }
     }
 
+    /// The history of the never-paused twin: the case's migrations, nothing else — except that a config write
+    /// re-stating the fees (`setw`) AFTER a migration from an older layout is kept with every switch on (such a
+    /// migration legitimately zeroes the burn fee the older release did not have, the write brings it back).
+    fn twin_history(&self) -> Vec<CfgWrite> {
+        let mut out = vec![];
+        let mut seen_legacy = false;
+        for wr in &self.writes {
+            match wr {
+                CfgWrite::Migrate(m) => {
+                    seen_legacy |= m.legacy;
+                    out.push(wr.clone());
+                }
+                CfgWrite::FullWith(_) if seen_legacy => out.push(CfgWrite::FullWith([true, true, true])),
+                _ => {}
+            }
+        }
+        out
+    }
+
+    /// number of config writes (not migrations) of the case so far
+    fn n_writes(&self) -> usize {
+        self.writes.iter().filter(|w| !matches!(w, CfgWrite::Migrate(_))).count()
+    }
+
+    fn crate_version(&mut self) -> (u64, u64, u64) {
+        if let Some(v) = self.crate_ver {
+            return v;
+        }
+        let k = self.variant;
+        let v = match guarded(|| -> Result<(u64, u64, u64), String> {
+            let w = World::build(k, false);
+            w.stored_version().and_then(|(_, v)| parse_ver(&v)).ok_or("no version".to_string())
+        }) {
+            Outcome::Ok(v) => v,
+            _ => (0, 0, 0),
+        };
+        self.crate_ver = Some(v);
+        v
+    }
+
     fn twin_of(&mut self, job: &Job) -> Twin {
-        let key = (self.kind, self.funded, self.amt, job.key());
+        let hist = self.twin_history();
+        let hkey = hist
+            .iter()
+            .map(|w| match w {
+                CfgWrite::Migrate(m) => m.token(),
+                _ => "setw".to_string(),
+            })
+            .collect::<Vec<_>>()
+            .join(";");
+        let key = (self.kind, self.funded, self.amt, job.key(), hkey);
         if let Some(v) = self.twin.get(&key) {
             return v.clone();
         }
-        let v = match run_on_fresh(self.kind, self.funded, &[], &[], job, self.amt) {
+        let on = vec![[true, true, true]; hist.len()];
+        let v = match run_on_fresh(self.kind, self.funded, &on, &hist, job, self.amt) {
             Outcome::Ok(r) => Twin { outcome: r.outcome, after: r.after_mod_cfg, inner: r.inner },
             _ => Twin { outcome: "broken", after: vec![], inner: None },
         };
@@ -1540,6 +1852,87 @@ impl Toggles {
             }
         }
         v
+    }
+
+    /// The two migrations of case `i`: one the handler must refuse (stored version equal to / above the crate's,
+    /// or sent by a stranger) and one from a LOWER version.  Lower versions: the previous patch release, the
+    /// versions around every threshold any `migrate` handler of the repository compares against (1.0.4, 1.1.0,
+    /// 1.1.3, 1.2.0, 1.3.4, incl. the feature-gated ones), far-away ones, the releases whose older storage
+    /// layout can be put back (`L`: there the storage migration really rebuilds `Config` / `pair_info`), and in
+    /// later rounds any PRNG version below the crate's.  On the current layout the storage migrations of the
+    /// pair (from <= 1.0.4, 1.1.0, 1.2.0) and of the vault (from <= 1.1.3) cannot read the items and fail: a
+    /// refused migration from a lower version (observed, nothing may change).
+    fn mig_specs(kind: Kind, cv: (u64, u64, u64), i: u64, rng: &mut Rng, round: u64) -> (MigSpec, MigSpec) {
+        let not_lower = [cv, (cv.0, cv.1, cv.2 + 1), (cv.0, cv.1 + 1, 0), (cv.0 + 1, 0, 0)];
+        let prev = if cv.2 > 0 {
+            (cv.0, cv.1, cv.2 - 1)
+        } else if cv.1 > 0 {
+            (cv.0, cv.1 - 1, 9)
+        } else {
+            (cv.0.saturating_sub(1), 9, 9)
+        };
+        let mut lower: Vec<((u64, u64, u64), bool)> = vec![(prev, false)];
+        for v in [
+            (1, 0, 0), (1, 0, 4), (1, 0, 5), (1, 1, 0), (1, 1, 1), (1, 1, 3), (1, 1, 4), (1, 2, 0), (1, 2, 1), (1, 2, 4), (1, 2, 6),
+            (1, 3, 0), (1, 3, 3), (1, 3, 4), (1, 3, 7), (0, 9, 12), (0, 0, 1),
+        ] {
+            // (the vault's handler treats everything up to 1.1.3 alike: three representatives are enough)
+            let dup = kind.is_vault() && v <= (1, 1, 3) && ![(1, 0, 0), (1, 1, 0), (1, 1, 3)].contains(&v);
+            if v < cv && !dup && !lower.contains(&(v, false)) {
+                lower.push((v, false));
+            }
+        }
+        let legacy: &[(u64, u64, u64)] = if kind.is_pair() {
+            &[(1, 1, 0), (1, 2, 0)]
+        } else if kind.is_vault() {
+            &[(1, 1, 3), (1, 0, 0), (1, 1, 0)]
+        } else {
+            &[]
+        };
+        // every third lower migration is one from an older layout (where there is one)
+        for (n, v) in legacy.iter().enumerate() {
+            if *v < cv {
+                lower.insert((3 * n + 2).min(lower.len()), (*v, true));
+            }
+        }
+        let refused = if i % 5 == 4 {
+            MigSpec { via: Via::Stranger, from: prev, legacy: false }
+        } else {
+            MigSpec { via: if i % 2 == 0 { Via::Factory } else { Via::Direct }, from: not_lower[(i % 4) as usize], legacy: false }
+        };
+        let (from, leg) = if round >= 2 && rng.chance(1, 3) {
+            // any version below the crate's
+            let major = rng.below(cv.0 + 1);
+            let minor = if major == cv.0 { rng.below(cv.1 + 1) } else { rng.below(12) };
+            let patch = if (major, minor) == (cv.0, cv.1) { rng.below(cv.2.max(1)) } else { rng.below(12) };
+            let v = (major, minor, patch);
+            if v < cv { (v, false) } else { lower[0] }
+        } else {
+            lower[((i + i / 8) % lower.len() as u64) as usize]
+        };
+        // the factory's `MigratePair` first asks the pair for `Pool{}`, which the CURRENT code cannot answer on
+        // the 1.2.0 layout of `pair_info` (on a chain the old code would): such a pair is migrated directly
+        let via = if leg && kind.is_pair() && from == (1, 2, 0) {
+            Via::Direct
+        } else if (i / 2) % 2 == 0 {
+            Via::Factory
+        } else {
+            Via::Direct
+        };
+        (refused, MigSpec { via, from, legacy: leg })
+    }
+
+    /// the case's history so far: switch values after each config write, migrations by their op token
+    fn hist_str(&self) -> String {
+        self.sets
+            .iter()
+            .zip(self.writes.iter())
+            .map(|(f, w)| match w {
+                CfgWrite::Migrate(m) => m.token(),
+                _ => format!("{}{}{}", f[0] as u8, f[1] as u8, f[2] as u8),
+            })
+            .collect::<Vec<_>>()
+            .join(", ")
     }
 
     fn flags_str(f: [bool; 3]) -> String {
@@ -1647,6 +2040,7 @@ impl Engine for Toggles {
                     CfgWrite::Partial(o) => [o[0].unwrap_or(cur[0]), o[1].unwrap_or(cur[1]), o[2].unwrap_or(cur[2])],
                     CfgWrite::FullWith(f) | CfgWrite::Full(f) => *f,
                     CfgWrite::Touch => cur,
+                    CfgWrite::Migrate(_) => cur,
                 };
                 let Some(w) = self.world.as_mut() else { return "bad-op".into() };
                 let r = w.write_cfg(&wr, cur);
@@ -1661,6 +2055,81 @@ impl Engine for Toggles {
                 }
                 format!("{} {}", if r.is_ok() { "ok" } else { "err" }, Self::flags_str(got))
             }
+            Some("migrate") => {
+                // migrate <f|d|s> <x.y.z[L]> cur=<crate version> base=<twin outcome>
+                if ws.len() != 5 || !ws[3].starts_with("cur=") || !ws[4].starts_with("base=") {
+                    return "bad-op".into();
+                }
+                let Some(m) = MigSpec::parse(ws[1], ws[2]) else { return "bad-op".into() };
+                if m.legacy && !legacy_known(self.kind, m.from) {
+                    return "bad-op".into();
+                }
+                let cur = self.sets.last().copied().unwrap_or([true, true, true]);
+                let hist = self.hist_str();
+                let (kind, funded) = (self.kind, self.funded);
+                let tok = m.token();
+                let desc = |what: &str| format!("{} funded={} history=[{}] {} : {}", kind.name(), funded as u8, hist, tok, what);
+                let Some(w) = self.world.as_mut() else { return "bad-op".into() };
+                // what the chain shows before: the switches (Config{}), the version instantiate / the last
+                // migration stored
+                let flags_before = w.flags_checked();
+                let crate_ver = self.crate_ver;
+                if let Err(e) = w.arrange_release(&m) {
+                    mon.check("C17", "world_builds", false, || desc(&format!("could not arrange the older release: {e}")));
+                    return "err".into();
+                }
+                let before = w.snapshot();
+                let (outcome, err) = match guarded(|| w.run_migrate(&m)) {
+                    Outcome::Ok(()) => ("ok", String::new()),
+                    Outcome::Err(e) => ("err", e),
+                    Outcome::Panic => ("panic", String::new()),
+                };
+                let after = w.snapshot();
+                let flags_after = w.flags_checked();
+                let ver_after = w.stored_version().map(|(_, v)| v).unwrap_or_default();
+                // ---- C17: a migration — refused or accepted, from whichever release — moves no switch
+                mon.check("C17", "migrate_leaves_switches", flags_before.is_some() && flags_after == flags_before, || {
+                    desc(&format!(
+                        "Config reported the switches {:?} before the migration ({}) and {:?} after it (operator's last write: {:?})",
+                        flags_before, outcome, flags_after, cur
+                    ))
+                });
+                if outcome != "ok" {
+                    mon.check("C17", "rejected_unchanged", before == after, || desc("refused migration changed balances or storage"));
+                }
+                // ---- statistics: which outcomes of which kinds of migration were reached
+                let lower = crate_ver.map(|c| m.from < c);
+                let class = match (m.via, lower, outcome) {
+                    (Via::Stranger, _, "ok") => "stranger_ACCEPTED",
+                    (Via::Stranger, _, _) => "stranger_refused",
+                    (_, Some(false), "ok") => "not_lower_ACCEPTED",
+                    (_, Some(false), _) => "not_lower_refused",
+                    (_, _, "ok") if m.legacy => "lower_older_layout_storage_migration_ran",
+                    (_, _, "ok") => "lower_accepted",
+                    (_, _, _) if err.contains("Error parsing") || err.contains("unknown field") || err.contains("missing field") || err.contains("not found") => {
+                        "lower_storage_migration_cannot_read_current_layout"
+                    }
+                    (_, _, _) => "lower_refused_other",
+                };
+                mon.stat(&format!("migrate_{class}"));
+                mon.stat(&format!("migrate_via_{}_{}", ws[1], outcome));
+                mon.stat(&format!("migrate_from_{}_{}", ws[2], outcome));
+                if outcome == "ok" {
+                    mon.stat(&format!("migrate_accepted_with_switches_{}", Self::flags_str(cur).replace(' ', "_")));
+                    mon.stat(&format!("migrate_accepted_version_after_{ver_after}"));
+                }
+                self.sets.push(cur);
+                self.writes.push(CfgWrite::Migrate(m));
+                let f = match flags_after {
+                    Some(f) => Self::flags_str(f),
+                    None => "a=? b=? c=?".to_string(),
+                };
+                if outcome == "ok" {
+                    format!("ok {f}")
+                } else {
+                    format!("{outcome} unchanged={} {f}", (before == after) as u8)
+                }
+            }
             Some("path") => {
                 if ws.len() != 3 {
                     return "bad-op".into();
@@ -1670,11 +2139,11 @@ impl Engine for Toggles {
                 let cur = self.sets.last().copied().unwrap_or([true, true, true]);
                 let job = Job::Path(path.to_string());
                 let Twin { outcome: base, after: base_after, .. } = self.twin_of(&job);
-                let reenabled = self.sets.len() >= 2 && cur == [true, true, true];
-                let sets = self.sets.clone();
+                let reenabled = self.n_writes() >= 2 && cur == [true, true, true];
+                let sets = self.hist_str();
                 let desc = |what: &str| {
                     format!(
-                        "{} funded={} amt={} sets={:?} path={} : {}",
+                        "{} funded={} amt={} history=[{}] path={} : {}",
                         self.kind.name(),
                         self.funded as u8,
                         self.amt,
@@ -1752,11 +2221,11 @@ impl Engine for Toggles {
                 let cur = self.sets.last().copied().unwrap_or([true, true, true]);
                 let job = Job::InLoan(j.clone());
                 let twin = self.twin_of(&job);
-                let reenabled = self.sets.len() >= 2 && cur == [true, true, true];
-                let sets = self.sets.clone();
+                let reenabled = self.n_writes() >= 2 && cur == [true, true, true];
+                let sets = self.hist_str();
                 let (kind, funded, amt) = (self.kind, self.funded, self.amt);
                 let tok = j.token();
-                let desc = |what: &str| format!("{} funded={} amt={} sets={:?} {} : {}", kind.name(), funded as u8, amt, sets, tok, what);
+                let desc = |what: &str| format!("{} funded={} amt={} history=[{}] {} : {}", kind.name(), funded as u8, amt, sets, tok, what);
                 let sw = |n: Option<usize>| match n {
                     Some(0) => "a",
                     Some(1) => "b",
@@ -1914,11 +2383,11 @@ impl Engine for Toggles {
             // the whole matrix of senders x inner entry points x plain / caught x exact / generous repayment;
             // later rounds: a PRNG sample of it, with PRNG amounts)
             let matrix = if self.variant.is_vault() { Self::inloan_matrix() } else { vec![] };
-            let mut push_inloans = |plan: &mut Vec<String>, rng: &mut Rng| {
+            let push_inloans = |plan: &mut Vec<String>, rng: &mut Rng, all: bool| {
                 if matrix.is_empty() {
                     return;
                 }
-                if round == 0 {
+                if all {
                     for j in &matrix {
                         plan.push(j.token());
                     }
@@ -1928,10 +2397,26 @@ impl Engine for Toggles {
                     }
                 }
             };
+            // ---- migrations of the case (see `mig_specs`): one that must be refused and one from a lower
+            // version, sent after the switches were written (round 0: a full write; later rounds: a partial
+            // write, possibly followed by a write naming no switch) and before every entry path is tried again
+            let cv = self.crate_version();
+            let (refused, lower) = Self::mig_specs(self.variant, cv, i, rng, round);
+            if round >= 1 && round % 2 == 0 {
+                // the pool was upgraded before the operator ever touched a switch
+                let early = Self::mig_specs(self.variant, cv, i + 5, rng, round).1;
+                plan.insert(0, early.token());
+            }
             for (p, _) in paths_of(self.variant) {
                 plan.push(format!("path {p}"));
             }
-            push_inloans(&mut plan, rng);
+            push_inloans(&mut plan, rng, round == 0);
+            plan.push(refused.token());
+            plan.push(lower.token());
+            for (p, _) in paths_of(self.variant) {
+                plan.push(format!("path {p}"));
+            }
+            push_inloans(&mut plan, rng, false);
             if round >= 1 && self.variant.is_vault() {
                 // the switches are flipped once more between operations: a second combination, written by
                 // naming only the switches that change
@@ -1939,10 +2424,14 @@ impl Engine for Toggles {
                 let g = [g & 1 != 0, g & 2 != 0, g & 4 != 0];
                 let o = |k: usize| if g[k] == f[k] { "-".to_string() } else { (g[k] as u8).to_string() };
                 plan.push(format!("setp {} {} {}", o(0), o(1), o(2)));
+                if round % 2 == 1 {
+                    // a second upgrade, now under the second combination
+                    plan.push(Self::mig_specs(self.variant, cv, i + 3, rng, round).1.token());
+                }
                 for (p, _) in paths_of(self.variant) {
                     plan.push(format!("path {p}"));
                 }
-                push_inloans(&mut plan, rng);
+                push_inloans(&mut plan, rng, false);
                 plan.push("set 1 1 1".into());
             } else if round == 0 {
                 plan.push("set 1 1 1".into());
@@ -1951,13 +2440,17 @@ impl Engine for Toggles {
             } else {
                 let o = |b: bool| if b { "-" } else { "1" };
                 plan.push(format!("setp {} {} {}", o(f[0]), o(f[1]), o(f[2])));
+                if round % 2 == 1 {
+                    // between the partial write that re-enables and the write naming no switch
+                    plan.push(Self::mig_specs(self.variant, cv, i + 3, rng, round).1.token());
+                }
                 plan.push("touch".into());
             }
 
             for (p, _) in paths_of(self.variant) {
                 plan.push(format!("path {p}"));
             }
-            push_inloans(&mut plan, rng);
+            push_inloans(&mut plan, rng, round == 0);
             plan.reverse();
             self.plan = plan;
             return Some(format!("init toggles kind={} funded={} amt={}", self.variant.name(), funded, amt));
@@ -1967,6 +2460,14 @@ impl Engine for Toggles {
             let p = p.to_string();
             let base = self.twin_of(&Job::Path(p.clone())).outcome;
             return Some(format!("path {p} base={base}"));
+        }
+        if l.starts_with("migrate ") {
+            let ws: Vec<&str> = l.split_whitespace().collect();
+            if let Some(m) = ws.get(1).zip(ws.get(2)).and_then(|(v, f)| MigSpec::parse(v, f)) {
+                let cv = self.crate_version();
+                let base = self.twin_of(&Job::Migrate(m)).outcome;
+                return Some(format!("{l} cur={}.{}.{} base={base}", cv.0, cv.1, cv.2));
+            }
         }
         if l.starts_with("inloan ") {
             let ws: Vec<&str> = l.split_whitespace().collect();
